@@ -48,7 +48,7 @@ def run_suite(d):
 
 def run_check(d, prop, runs, budget, seed):
     env = dict(os.environ, VERIF_REPO=d, VERIF_SEED=str(seed), VERIF_REPLAY_DIR=os.path.join(d, "_replays"), VERIF_SHRINK_S=os.environ.get("VERIF_SHRINK_S", "25"))
-    cmd = [os.path.join(VERIF, "check"), prop, "--tier", "quick", "--no-selftest", "--no-evidence"]
+    cmd = [os.path.join(VERIF, "check"), prop, "--tier", "quick", "--no-evidence"] + ([] if os.environ.get("VERIF_MUT_SELFTEST") else ["--no-selftest"])
     if runs:
         cmd += ["--runs", str(runs)]
     if budget:
